@@ -74,6 +74,7 @@ LinkedDvComplete(g, inst) ==
     \A k \in DOMAIN g.cons : \A i, j \in DOMAIN g.cons[k].dv :
        (HasDvValue(inst, g.cons[k].dv[i]) /\ g.cons[k].dv[j] \in SeqSet(inst.nodes)) => HasDvValue(inst, g.cons[k].dv[j])
 
+IsLinkedDv(g, n) == \E k \in DOMAIN g.cons : n \in {g.cons[k].dv[j] : j \in DOMAIN g.cons[k].dv}
 \* ---- the decode contract: set of violated clauses for result r of Decode(x, create) -------------------------
 \* r = [err, rx, ract, hasinst, inst]
 DecodeClauses(g, adm, dvs, x, r) ==
@@ -86,6 +87,11 @@ DecodeClauses(g, adm, dvs, x, r) ==
       \cup (IF Len(r.ract) = Len(dvs) THEN {} ELSE {"C07.activeness_length"})
       \cup (IF Len(r.ract) = Len(dvs) /\ Len(r.rx) = Len(dvs) /\ ~Canonical(dvs, r.rx, r.ract) THEN {"C07.inactive_not_canonical"} ELSE {})
       \cup (IF Len(r.ract) = Len(dvs) /\ \E i \in DOMAIN dvs : ~dvs[i].cond /\ ~r.ract[i] THEN {"C07.unconditional_variable_inactive"} ELSE {})
+      \* C16, with or without an instance: the entry the corrected vector reports for an active design-variable-node
+      \* variable is the clamp of the requested entry (a linked partner is set from the other node and is exempt)
+      \cup (IF Len(x) = Len(dvs) /\ Len(r.rx) = Len(dvs) /\ Len(r.ract) = Len(dvs)
+               /\ \E i \in DOMAIN dvs : dvs[i].kind = "dv" /\ r.ract[i] /\ ~IsLinkedDv(g, dvs[i].c) /\ r.rx[i] # ClampNode(g, dvs[i].c, x[i])
+            THEN {"C16.vector_entry_not_clamp_of_input"} ELSE {})
       \cup
       (IF ~r.hasinst THEN {}
        ELSE (IF inst.final /\ inst.left = <<>> THEN {} ELSE {"C01.instance_not_final"})
